@@ -1,11 +1,180 @@
 /-
   Avt.Spec.C11 — oracle of property C11 (decidable predicates evaluated on implementation states;
   the same definitions the theorems in Avt/Props/C11.lean are stated with).
+
+  C11: feeding `dump()` into a fresh terminal of the same size yields a terminal that is
+  observationally equivalent to the original, for all future input.
+
+  `Obs` is what the public API shows.  "Equivalent for all future input" is expressed as equality of
+  a *normal form* `normD` that erases exactly the state no future input can ever observe; equality of
+  normal forms is preserved by feeding identical input (checked on the implementation after every
+  probe / continuation, and stated as `C11_norm_sound` in Props/C11.lean), and it implies `Obs`
+  equality.
+
+  The two exceptions the property text names — and a third of the same mechanism found while
+  building the model — are recognised by decidable classifiers on the *dumped* state:
+    KF2  `resizedOnAlt`                     (the parked primary has stale geometry)
+    KF1  `¬cursorStepFaithful`, mode part   (`CSI u` in dump step 9 restores other modes)
+    KF3  `¬cursorStepFaithful`, position    (the relative moves after `CSI u` stop at a margin)
+  A failure is attributed to a finding only when the difference is confined to what that finding
+  can disturb; every other difference is an unclassified `C11:` failure.
 -/
 import Avt.Spec.Base
 
 namespace Avt.Spec.C11
 open Avt Avt.Spec
+
+/-! ### what the public API shows -/
+
+structure Obs where
+  view : List Line            -- cells (characters and pens) and the wrap marks of the view
+  cursorCol : Nat
+  cursorRow : Nat
+  cursorVisible : Bool
+  cursorKeyApp : Bool
+  deriving DecidableEq, Repr
+
+def obs (v : Vt) : Obs :=
+  { view := v.view, cursorCol := v.cursor.col, cursorRow := v.cursor.row,
+    cursorVisible := v.cursor.visible, cursorKeyApp := v.cursorKeyAppMode }
+
+/-! ### normal form: erase what no future input can observe -/
+
+/-- are the parameter registers read before the next `clear()`?  (`Parser::assert_eq` of the suite) -/
+def paramsLive (s : PState) : Bool := s == .CsiParam || s == .DcsParam
+
+/-- is the intermediate register read before the next `clear()`/`collect()`? -/
+def intermediateLive (s : PState) : Bool :=
+  s == .EscapeIntermediate || s == .CsiIntermediate || s == .CsiParam || s == .DcsIntermediate
+    || s == .DcsParam
+
+/-- dead parser registers are replaced by those of `Parser::new` -/
+def normP (p : Parser) : Parser :=
+  { state := p.state,
+    params := if paramsLive p.state then p.params else Parser.new.params,
+    curParam := if paramsLive p.state then p.curParam else 0,
+    intermediate := if intermediateLive p.state then p.intermediate else none }
+
+/-- what every reachable parser state guarantees about its registers beyond `PInv` (which characters
+    can have been collected on the way into the state; DCS sequences never take sub-parameters).
+    Hypothesis of the `Parser.dump` round trip; also evaluated on the implementation's states. -/
+def imIn (lo hi : Nat) : Option Nat → Bool
+  | some c => lo ≤ c && c ≤ hi
+  | none => false
+
+def PRegOK (p : Parser) : Bool :=
+  match p.state with
+  | .EscapeIntermediate | .CsiIntermediate | .DcsIntermediate => imIn 0x20 0x2f p.intermediate
+  | .CsiParam => p.intermediate.isNone || imIn 0x3c 0x3f p.intermediate
+  | .DcsParam => (p.intermediate.isNone || imIn 0x3c 0x3f p.intermediate)
+      && (p.params.take (p.curParam + 1)).all (fun q => q.curPart == 0)
+  | .DcsPassthrough => p.intermediate.isNone || imIn 0x20 0x2f p.intermediate || imIn 0x3c 0x3f p.intermediate
+  | .Escape | .CsiEntry | .DcsEntry =>
+      p.intermediate.isNone && p.curParam == 0 && p.params.all Param.isZero
+  | _ => true
+
+/-- scrollback, its limit and the trim flag of a buffer are invisible to every feed -/
+def normB (b : Buffer) : Buffer := { b with sb := [], limit := none, trimNeeded := false }
+
+/-- stands for a parked alternate buffer: it is rebuilt from scratch whenever the alternate screen is
+    entered, so nothing of it is ever read -/
+def deadBuffer : Buffer := { sb := [], view := [], cols := 0, rows := 0, limit := none, trimNeeded := false }
+
+/-- the parked saved context is clamped into the screen before it can be used (`reflow` runs on
+    every buffer switch) -/
+def clampCtx (c : SavedCtx) (cols rows : Nat) : SavedCtx :=
+  { c with cursorCol := min c.cursorCol (cols - 1), cursorRow := min c.cursorRow (rows - 1) }
+
+def normT (t : Terminal) : Terminal :=
+  { t with
+    buffer := normB t.buffer,
+    otherBuffer := if t.activeBufferType = .primary then deadBuffer else normB t.otherBuffer,
+    scrollbackLimit := none,
+    alternateSavedCtx := clampCtx t.alternateSavedCtx t.cols t.rows,
+    dirtyLines := Dirty.clear t.dirtyLines }
+
+def normD (v : Vt) : Vt := { parser := normP v.parser, terminal := normT v.terminal }
+
+/-! ### classifiers of the known findings (on the dumped state) -/
+
+/-- KF2: the alternate screen is showing and the parked primary buffer still has the geometry it had
+    before a resize -/
+def resizedOnAlt (t : Terminal) : Bool :=
+  t.activeBufferType == .alternate && (t.otherBuffer.cols != t.cols || t.otherBuffer.rows != t.rows)
+
+/-- does dump step 9 take the `CSI u` + relative moves route? -/
+def cursorOutsideRegion (t : Terminal) : Bool :=
+  t.originMode && (t.cursor.row < t.topMargin || t.cursor.row > t.bottomMargin)
+
+/-- the terminal right after the `CSI u` of dump step 9 (a restored terminal has the same margins,
+    size and active saved context as the original at that point; `CSI u` overwrites the cursor
+    position, the pen and the two modes, so nothing else of the start state matters) -/
+def afterCsiU (t : Terminal) : Terminal := t.restoreCursor
+
+/-- the relative moves dump step 9 emits after `CSI u`, as the functions the parser makes of them -/
+def step9Moves (t : Terminal) : List Function :=
+  let col := t.cursor.col
+  let row := t.cursor.row
+  let sc := t.savedCtx
+  (if col < sc.cursorCol then [Function.cub (sc.cursorCol - col)]
+   else if col > sc.cursorCol then [Function.cuf (col - sc.cursorCol)] else [])
+  ++ (if row < sc.cursorRow then [Function.cuu (sc.cursorRow - row)]
+      else if row > sc.cursorRow then [Function.cud (row - sc.cursorRow)] else [])
+
+/-- replay `CSI u` + the emitted moves on the model -/
+def step9Sim (t : Terminal) : Option Terminal :=
+  Terminal.foldM' Terminal.execute (step9Moves t) (afterCsiU t)
+
+/-- the modes `CSI u` leaves are the ones the remaining steps assume: origin mode is not touched
+    again; auto-wrap is only ever switched *off* by step 12, and must be on for the re-print that
+    re-creates a pending wrap -/
+def step9ModesFaithful (t : Terminal) : Bool :=
+  let s := afterCsiU t
+  s.originMode == t.originMode
+    && (!t.autoWrapMode || s.autoWrapMode)
+    && (t.cursor.col < t.cols || s.autoWrapMode)
+
+/-- the relative moves land on the cursor (the wrap-pending column is reached by a re-print from the
+    last column) -/
+def step9PositionFaithful (t : Terminal) : Bool :=
+  match step9Sim t with
+  | some s => s.cursor.row == t.cursor.row && s.cursor.col == min t.cursor.col (t.cols - 1)
+  | none => false
+
+def cursorStepFaithful (t : Terminal) : Bool :=
+  !cursorOutsideRegion t || (step9ModesFaithful t && step9PositionFaithful t)
+
+inductive Finding where
+  | kf1 | kf2 | kf3
+  deriving DecidableEq, Repr
+
+/-- which known findings apply to a dumped state -/
+def findings (t : Terminal) : List Finding :=
+  (if resizedOnAlt t then [Finding.kf2] else [])
+  ++ (if cursorStepFaithful t then []
+      else if !step9ModesFaithful t then [Finding.kf1] else [Finding.kf3])
+
+def Finding.label : Finding → String
+  | .kf1 => "KF1:dump-step9-CSI-u-restores-other-origin/auto-wrap-modes"
+  | .kf2 => "KF2:resized-while-on-alternate-screen(parked-primary-has-stale-geometry)"
+  | .kf3 => "KF3:dump-step9-relative-moves-after-CSI-u-stop-at-a-margin"
+
+/-- what a finding can disturb in the restored terminal right after the restore:
+    KF2 — the parked primary buffer;
+    KF1/KF3 — cursor position, the two modes `CSI u` sets, the pending wrap, and (when a wrap is
+    pending) the cell re-printed at the last column of the wrong row. -/
+def excuse (fs : List Finding) (dumped : Terminal) (t : Terminal) : Terminal :=
+  let t := if fs.contains .kf2 then { t with otherBuffer := deadBuffer } else t
+  if fs.contains .kf1 || fs.contains .kf3 then
+    { t with cursor := { t.cursor with col := 0, row := 0 }, originMode := false, autoWrapMode := false,
+             pendingWrap := false,
+             buffer := if dumped.cursor.col ≥ dumped.cols then { t.buffer with view := [] } else t.buffer }
+  else t
+
+def excuseVt (fs : List Finding) (dumped : Terminal) (v : Vt) : Vt :=
+  { v with terminal := excuse fs dumped v.terminal }
+
+/-! ### the oracle -/
 
 def checkStep (_ev : StepEv) : List Verdict := []
 
@@ -13,7 +182,72 @@ def checkNew (_cols _rows : Nat) (_lim : Option Nat) (_st : Vt) : List Verdict :
 
 def checkParserStep (_prev : Parser) (_c : Nat) (_next : Parser) (_fn : String) : List Verdict := []
 
-def checkDirective (_name : String) (_args : List String) (_inst : String → Option Inst)
-    (_tcOut : Nat → List (List Nat)) : List Verdict × List (Nat × Inst) := ([], [])
+def obsTag (a b : Vt) : String := if obs a == obs b then "obs=same" else "obs=DIFFERENT"
+
+/-- first component of the normal forms that differs (diagnostics only) -/
+def diffTag (a b : Vt) : String :=
+  let x := a.terminal
+  let y := b.terminal
+  if a.parser ≠ b.parser then "parser"
+  else if x.cursor ≠ y.cursor then "cursor"
+  else if x.buffer ≠ y.buffer then "buffer"
+  else if x.otherBuffer ≠ y.otherBuffer then "other_buffer"
+  else if x.savedCtx ≠ y.savedCtx then "saved_ctx"
+  else if x.alternateSavedCtx ≠ y.alternateSavedCtx then "alternate_saved_ctx"
+  else if x.tabs ≠ y.tabs then "tabs"
+  else if x.pen ≠ y.pen then "pen"
+  else if (x.topMargin, x.bottomMargin) ≠ (y.topMargin, y.bottomMargin) then "margins"
+  else if x.pendingWrap ≠ y.pendingWrap then "pending_wrap"
+  else if (x.originMode, x.autoWrapMode) ≠ (y.originMode, y.autoWrapMode) then "origin/auto_wrap"
+  else if (x.charsets, x.activeCharset) ≠ (y.charsets, y.activeCharset) then "charsets"
+  else "modes/other"
+
+/-- `X C11 k0 k1`.  The first directive of a case comes right after `DUMPTO k0 k1`: `k0` is the
+    dumped terminal, `k1` a fresh terminal of the same size fed with the dump.  Every later directive
+    comes after both were fed the same probe / continuation.
+
+    `Inst.mark` of `k0` remembers the dumped state, `Inst.markResized` that a known finding has made
+    the two instances diverge (so that later differences of the same case stay attributed to it). -/
+def checkDirective (name : String) (args : List String) (inst : String → Option Inst)
+    (_tcOut : Nat → List (List Nat)) : List Verdict × List (Nat × Inst) :=
+  if name ≠ "C11" then ([], []) else
+  match args with
+  | [k0, k1] =>
+    match inst k0, inst k1, k0.toNat? with
+    | some i0, some i1, some n0 =>
+      if i0.dead || i1.dead then ([], []) else
+      let a := normD i0.st
+      let b := normD i1.st
+      match i0.mark with
+      | none =>
+        -- right after the restore
+        let dumped := i0.st.terminal
+        let fs := findings dumped
+        let i0' := { i0 with mark := some i0.st }
+        let reg := check "C11:parser-registers-have-the-shape-of-their-state" true
+          (PInv i0.st.parser && PRegOK i0.st.parser)
+        (fun (r : List Verdict × List (Nat × Inst)) => (reg :: r.1, r.2)) <|
+        if a == b then ([check "C11:restored-equals-dumped" true true], [(n0, i0')])
+        else
+          match fs with
+          | f :: _ =>
+            if excuseVt fs dumped a == excuseVt fs dumped b then
+              ([.fail s!"{f.label} at=restore {obsTag i0.st i1.st}"], [(n0, { i0' with markResized := true })])
+            else
+              ([.fail s!"C11:restored-differs-from-dumped-beyond-known-finding first-diff={diffTag (excuseVt fs dumped a) (excuseVt fs dumped b)} {obsTag i0.st i1.st}"],
+               [(n0, i0')])
+          | [] =>
+            ([.fail s!"C11:restored-differs-from-dumped first-diff={diffTag a b} {obsTag i0.st i1.st}"], [(n0, i0')])
+      | some dumpedVt =>
+        -- after an identical probe / continuation on both
+        if a == b then ([check "C11:equal-after-continuation" true true], [])
+        else if i0.markResized then
+          match findings dumpedVt.terminal with
+          | f :: _ => ([.fail s!"{f.label} at=continuation {obsTag i0.st i1.st}"], [])
+          | [] => ([.fail s!"C11:differs-after-continuation first-diff={diffTag a b} {obsTag i0.st i1.st}"], [])
+        else
+          ([.fail s!"C11:differs-after-continuation first-diff={diffTag a b} {obsTag i0.st i1.st}"], [])
+    | _, _, _ => ([], [])
+  | _ => ([], [])
 
 end Avt.Spec.C11
